@@ -18,7 +18,7 @@ def wrapQ (rec : P → Score → Score → SState → Score × SState) :
 
 def projQ (r : Score × List Move × Bool × Bool × SState) : Score × Bool × SState := (r.1, r.2.2.1, r.2.2.2.2)
 
-theorem quiesceLoop_eq (g : Game P) (ex : Explore) (rec) (p : P) (b : Score) :
+theorem quiesceLoop_eq (g : Game P) (ex : P → Explore) (rec) (p : P) (b : Score) :
     ∀ (l : List Move) (a : Score) (pv : List Move) (hl : Bool) (st : SState),
       quiesceLoop g ex rec p b l a hl st = projQ (abLoop g ex (wrapQ rec) p b l a pv hl st) := by
   intro l
@@ -29,7 +29,7 @@ theorem quiesceLoop_eq (g : Game P) (ex : Explore) (rec) (p : P) (b : Score) :
     cases hpush : g.push p m with
     | none => rw [abLoop_none hpush, ← ih]; simp [quiesceLoop, childOf, hpush]
     | some c =>
-      cases hp : ex.pick m with
+      cases hp : (ex p).pick m with
       | false =>
         rw [abLoop_skip hpush hp, apply_ite projQ, ← ih]
         simp only [quiesceLoop, childOf, hpush, hp, Bool.false_eq_true, if_false]
@@ -41,17 +41,17 @@ theorem quiesceLoop_eq (g : Game P) (ex : Explore) (rec) (p : P) (b : Score) :
         simp only [quiesceLoop, childOf, hpush, hp, if_true, wrapQ, scoreMax_eq, lift]
         rfl
 
-theorem quiesce_succ {g : Game P} {ex : Explore} {fuel : Nat} {p : P} {a b : Score} {st : SState} (hst : Quiet st) :
+theorem quiesce_succ {g : Game P} {ex : P → Explore} {fuel : Nat} {p : P} {a b : Score} {st : SState} (hst : Quiet st) :
     quiesce g ex (fuel + 1) p a b st =
       if g.isDraw p then (zeroScore, { st with polls := st.polls + 1 }) else
-      (let r := quiesceLoop g ex (quiesce g ex fuel) p b (heapOrder (g.moves p) ex.prio)
+      (let r := quiesceLoop g ex (quiesce g ex fuel) p b (heapOrder (g.moves p) (ex p).prio)
           (Score.max a (heuristicScore (g.eval p))) false { st with polls := st.polls + 1, nodes := st.nodes + 1 }
        if !r.2.1 then (terminal g p, r.2.2) else (r.1, r.2.2)) := by
   simp only [quiesce, poll_quiet' hst, Bool.false_eq_true, if_false, terminal]
 
 /-- One node of `quiesce` with fuel left, given the node contract one level down. Besides the contract it
     records the stand-pat bound and the terminal value. -/
-theorem quiesce_succ_spec {g : Game P} (hev : EvalOk g) (ex : Explore) (K fuel : Nat) (hf : K + fuel + 1 ≤ 127)
+theorem quiesce_succ_spec {g : Game P} (hev : EvalOk g) (ex : P → Explore) (K fuel : Nat) (hf : K + fuel + 1 ≤ 127)
     (IH : RecOK (K + fuel) (Q g ex fuel) (fun _ _ _ => True) (wrapQ (quiesce g ex fuel)))
     (p : P) (a b : Score) (st : SState) (hst : Quiet st) (ha : okN (K + fuel + 1) a) (hb : okN (K + fuel + 1) b) :
     ∀ r, quiesce g ex (fuel + 1) p a b st = r →
@@ -77,11 +77,11 @@ theorem quiesce_succ_spec {g : Game P} (hev : EvalOk g) (ex : Explore) (K fuel :
     obtain ⟨_, ha1, ra1⟩ := raise_spec ha hsc
     rw [← scoreMax_eq] at ha1 ra1
     have hst1 : Quiet { st with polls := st.polls + 1, nodes := st.nodes + 1 } := hst
-    have hperm := ABHeap.heapOrder_perm (g.moves p) ex.prio
+    have hperm := ABHeap.heapOrder_perm (g.moves p) (ex p).prio
     rw [quiesceLoop_eq g ex _ p b _ _ []] at hr
     obtain ⟨h1, h2, h3, h4, h5, h6, _⟩ := abLoop_spec (g := g) (ex := ex) (p := p) IH (by omega) hb
-      (heapOrder (g.moves p) ex.prio) _ [] false _ ha1 hst1 _ rfl
-    generalize abLoop g ex (wrapQ (quiesce g ex fuel)) p b (heapOrder (g.moves p) ex.prio)
+      (heapOrder (g.moves p) (ex p).prio) _ [] false _ ha1 hst1 _ rfl
+    generalize abLoop g ex (wrapQ (quiesce g ex fuel)) p b (heapOrder (g.moves p) (ex p).prio)
       (Score.max a (heuristicScore (g.eval p))) [] false
       { st with polls := st.polls + 1, nodes := st.nodes + 1 } = res at hr h1 h2 h3 h4 h5 h6
     simp only [projQ] at hr
@@ -118,7 +118,7 @@ theorem quiesce_succ_spec {g : Game P} (hev : EvalOk g) (ex : Explore) (K fuel :
         fun _ h => by simp [hl'] at h, fun _ _ => rfl⟩
 
 /-- Node contract of `quiesce` by induction on the fuel. -/
-theorem quiesce_recOK {g : Game P} (hev : EvalOk g) (ex : Explore) (K : Nat) :
+theorem quiesce_recOK {g : Game P} (hev : EvalOk g) (ex : P → Explore) (K : Nat) :
     ∀ fuel, K + fuel ≤ 127 →
       RecOK (K + fuel) (Q g ex fuel) (fun _ _ _ => True) (wrapQ (quiesce g ex fuel)) := by
   intro fuel
@@ -159,19 +159,19 @@ theorem maxR_mem {l : List Int} {y : Int} (x : Int) (h : y ∈ l) : y ≤ maxR x
     · have := maxR_ge zs (Max.max x z); omega
     · exact ih _ e
 
-theorem mem_kidsR {g : Game P} {ex : Explore} {p : P} {vc : P → Score} {l : List Move} {m : Move} {c : P}
-    (hm : m ∈ l) (hpush : g.push p m = some c) (hp : ex.pick m = true) :
+theorem mem_kidsR {g : Game P} {ex : P → Explore} {p : P} {vc : P → Score} {l : List Move} {m : Move} {c : P}
+    (hm : m ∈ l) (hpush : g.push p m = some c) (hp : (ex p).pick m = true) :
     rank (lift (vc c)) ∈ kidsR g ex p vc l := by
   unfold kidsR kids
   simp only [List.mem_map, List.mem_filterMap]
   exact ⟨c, ⟨m, hm, by simp [hp, hpush]⟩, rfl⟩
 
-theorem pathOK_nil (g : Game P) (ex : Explore) (le : LeafEval) (rootPly : Int) (d : Nat) (p : P) (s : Score) :
+theorem pathOK_nil (g : Game P) (ex : P → Explore) (le : LeafEval P) (rootPly : Int) (d : Nat) (p : P) (s : Score) :
     PathOK g ex le rootPly d p s [] := by
   cases d <;> simp [PathOK, Path, Principal]
 
 /-- One inner node of `alphabeta`, given the node contract one level down. -/
-theorem alphabeta_succ_spec {g : Game P} (hev : EvalOk g) (ex : Explore) (le : LeafEval) (rootPly : Int) (K : Nat)
+theorem alphabeta_succ_spec {g : Game P} (hev : EvalOk g) (ex : P → Explore) (le : LeafEval P) (rootPly : Int) (K : Nat)
     (hK : leafGrade le ≤ K) (d : Nat) (hKd : K + d + 1 ≤ 127)
     (IH : RecOK (K + d) (V g ex le rootPly d) (PathOK g ex le rootPly d) (alphabeta g ex le rootPly d))
     (p : P) (a b : Score) (st : SState) (hst : Quiet st) (ha : okN (K + d + 1) a) (hb : okN (K + d + 1) b) :
@@ -198,7 +198,7 @@ theorem alphabeta_succ_spec {g : Game P} (hev : EvalOk g) (ex : Explore) (le : L
   · have hdraw' : (!(g.ply p == rootPly) && g.isDraw p) = false := by simpa using hdraw
     simp only [hdraw', Bool.false_eq_true, if_false] at hr
     generalize hres : abLoop _ _ _ _ _ _ _ _ _ _ = res at hr
-    have hperm := ABHeap.heapOrder_perm (g.moves p) (firstPrio {} ex.prio)
+    have hperm := ABHeap.heapOrder_perm (g.moves p) (firstPrio {} (ex p).prio)
     obtain ⟨h1, h2, h3, h4, h5, h6, h7⟩ := abLoop_spec IH (by omega) hb _ _ _ _ _ ha
       (show Quiet { st with polls := st.polls + 1, nodes := st.nodes + 1 } from hst) res hres
     rw [legalAny_perm g p hperm, Bool.false_or] at h4
@@ -266,7 +266,7 @@ theorem alphabeta_succ_spec {g : Game P} (hev : EvalOk g) (ex : Explore) (le : L
       intro _ m rest h; simp at h
 
 /-- Node contract of `alphabeta` (no table, no cancellation) by induction on the depth. -/
-theorem alphabeta_recOK {g : Game P} (hev : EvalOk g) (ex : Explore) (le : LeafEval) (rootPly : Int) (K : Nat)
+theorem alphabeta_recOK {g : Game P} (hev : EvalOk g) (ex : P → Explore) (le : LeafEval P) (rootPly : Int) (K : Nat)
     (hK : leafGrade le ≤ K) :
     ∀ d, K + d ≤ 127 →
       RecOK (K + d) (V g ex le rootPly d) (PathOK g ex le rootPly d) (alphabeta g ex le rootPly d) := by
